@@ -62,22 +62,125 @@ def api_surface(prog, spec=None):
     return obs, mut, skipped
 
 
-def _guarded_by_exists(func, site):
-    """True if an `if (!path_exists(..)) throw` (or equivalent: if-statement
-    whose condition calls path_exists and whose then-branch throws) precedes
-    the site among the statements of the function body."""
-    body = func.body
-    for st in children(body):
-        if st.get('loc') and site.node.get('loc') and st['loc'][1] >= site.node['loc'][1]:
+def _sym_path(prog, func, node, depth=0):
+    """Symbolic value of a path expression: tuple of ('param', name) / literal string parts.
+    Locals initialised once are followed; repository helpers that return an expression over
+    their parameters (make_*_path) are inlined."""
+    n = strip(node, explicit=True)
+    k = n.get('kind')
+    if k == 'StringLiteral':
+        return (program.decode_string_literal(n.get('value')),)
+    if k in ('CXXConstructExpr', 'CXXTemporaryObjectExpr', 'InitListExpr'):
+        c = [x for x in children(n) if x.get('kind') != 'CXXDefaultArgExpr']
+        if len(c) == 1:
+            return _sym_path(prog, func, c[0], depth)
+        return None
+    if k == 'CXXMemberCallExpr':
+        callee = strip(children(n)[0])
+        if (callee.get('name') or '').startswith('operator') or callee.get('name') in ('c_str', 'string'):
+            return _sym_path(prog, func, children(callee)[0], depth)
+        return None
+    if k == 'DeclRefExpr':
+        ref = n.get('referencedDecl') or {}
+        if ref.get('kind') == 'ParmVarDecl':
+            return (('param', ref.get('name')),)
+        for v in walk(func.body):
+            if v.get('kind') == 'VarDecl' and v.get('id') == ref.get('id'):
+                init = [x for x in children(v) if not x['kind'].endswith('Attr')]
+                if init:
+                    return _sym_path(prog, func, init[-1], depth)
+        return None
+    if k == 'CXXOperatorCallExpr':
+        c = children(n)
+        if (strip(c[0]).get('referencedDecl') or {}).get('name') == 'operator+':
+            a, b = _sym_path(prog, func, c[1], depth), _sym_path(prog, func, c[2], depth)
+            if a is None or b is None:
+                return None
+            return _join(a + b)
+        return None
+    if k == 'CallExpr' and depth < 3:
+        d, qn, virt, recv = prog.resolve_callee(func.tu, n)
+        defs = prog.definitions_for(func.tu, d, qn) if d is not None else []
+        if len(defs) == 1 and defs[0].body is not None:
+            g = defs[0]
+            rets = [x for x in walk(g.body) if x.get('kind') == 'ReturnStmt']
+            if len(rets) == 1 and children(rets[0]):
+                inner = _sym_path(prog, g, children(rets[0])[0], depth + 1)
+                if inner is None:
+                    return None
+                args = children(n)[1:]
+                names = [p.get('name') for p in g.params]
+                out = ()
+                for part in inner:
+                    if isinstance(part, tuple) and part[0] == 'param' and part[1] in names:
+                        sub = _sym_path(prog, func, args[names.index(part[1])], depth)
+                        if sub is None:
+                            return None
+                        out += sub
+                    else:
+                        out += (part,)
+                return _join(out)
+        nm = (strip(children(n)[0]).get('referencedDecl') or {}).get('name')
+        if nm in ('move', 'forward') and len(children(n)) == 2:
+            return _sym_path(prog, func, children(n)[1], depth)
+    return None
+
+
+def _join(parts):
+    out = []
+    for p in parts:
+        if isinstance(p, str) and out and isinstance(out[-1], str):
+            out[-1] += p
+        else:
+            out.append(p)
+    return tuple(out)
+
+
+def _show_path(sp):
+    if sp is None:
+        return '<unknown>'
+    return ' + '.join(repr(p) if isinstance(p, str) else p[1] for p in sp)
+
+
+def _existence_guards(prog, func, before_node):
+    """Symbolic paths P for which `if (... !path_exists(P) ...) throw` precedes before_node
+    among the statements of the function body (all disjuncts of an || condition count)."""
+    out = []
+    for st in children(func.body):
+        if st.get('loc') and before_node.get('loc') and st['loc'][1] >= before_node['loc'][1]:
             break
-        if st.get('kind') == 'IfStmt':
-            c = children(st)
-            cond, then = c[0], c[1]
-            calls = [(x.get('referencedDecl') or {}).get('name') for x in walk(cond)
-                     if x.get('kind') == 'DeclRefExpr']
-            if 'path_exists' in calls and any(x.get('kind') == 'CXXThrowExpr' for x in walk(then)):
-                return True
-    return False
+        if st.get('kind') != 'IfStmt':
+            continue
+        c = children(st)
+        cond, then = c[0], c[1]
+        if not any(x.get('kind') == 'CXXThrowExpr' for x in walk(then)):
+            continue
+        for x in walk(cond):
+            if x.get('kind') == 'UnaryOperator' and x.get('opcode') == '!':
+                inner = strip(children(x)[0], explicit=True)
+                if inner.get('kind') == 'CallExpr' and \
+                        (strip(children(inner)[0]).get('referencedDecl') or {}).get('name') == 'path_exists':
+                    out.append(_sym_path(prog, func, children(inner)[1]))
+    return out
+
+
+def _open_sites(prog, cg, reach):
+    """Connection-opening constructs in reachable functions: sqlite::database{path}."""
+    out = []
+    for key, (f, _, _) in reach.items():
+        if f.body is None or f.is_pattern:
+            continue
+        for n in walk(f.body):
+            if n.get('kind') in ('CXXConstructExpr', 'CXXTemporaryObjectExpr') and \
+                    'sqlite::database' in (n.get('type') or '') and 'binder' not in (n.get('type') or ''):
+                args = [a for a in children(n) if a.get('kind') != 'CXXDefaultArgExpr']
+                if len(args) != 1:
+                    continue
+                at = strip(args[0]).get('type') or ''
+                if 'sqlite::database' in at:
+                    continue    # copy / move of a handle
+                out.append((f, n, args[0]))
+    return out
 
 
 def run(tier='quick'):
@@ -95,17 +198,17 @@ def run(tier='quick'):
                         'BEGIN / COMMIT / ROLLBACK', floor=130)
     E3 = chk.rule('E3', 'no observing operation reaches create_dir, a schema creator\'s create(), '
                         'a stream opened for writing or a statement whose text is not a literal', floor=130)
-    E4 = chk.rule('E4', 'every ATTACH reachable from an observing operation binds a path behind an '
-                        'existence test that throws (loading never creates a database file in a '
-                        'directory that has none)', floor=2)
+    E4 = chk.rule('E4', 'every ATTACH and every sqlite::database{path} open reachable from an observing '
+                        'operation is preceded by `if (!path_exists(P)) throw` on the very same symbolic '
+                        'path (loading never creates a database file that is missing)', floor=4)
     E5 = chk.rule('E5', 'positive control: every mutating public operation shows a write / ddl / '
                         'dynamic statement in its transitive effect (the effect analysis sees through '
                         'the same call graph the observers are judged on)', floor=100)
     chk.assume('a SELECT or a read-only PRAGMA fires no trigger and changes no content (SQLite)')
     chk.assume('opening a connection on an existing file and ATTACHing an existing file do not change '
                'its content')
-    chk.note('not decided: a legacy directory that has m.db but no p.db gets an empty p.db created by '
-             'ATTACH on load (not a well-formed library to begin with)')
+    chk.note('E4 compares symbolic path values (parameter + literal parts, helpers inlined), so a guard '
+             'on the directory does not discharge an open of a file inside it')
 
     obs, mut, skipped = api_surface(prog, spec)
     creators = set()
@@ -170,17 +273,38 @@ def run(tier='quick'):
                 attach_sites[e.loc] = e
 
     for loc, e in sorted(attach_sites.items()):
-        binds_path = len(e.site.binds) > 0
-        if not binds_path:
+        if not e.site.binds:
             chk.violation(E4, '%s|attach literal' % e.func.qualname, loc,
                           'observer-reachable ATTACH of a literal target: %s' % e.stmt.text())
             continue
-        if _guarded_by_exists(e.func, e.site):
-            chk.ok(E4, '%s: %s' % (e.func.qualname, e.stmt.text()), loc)
+        sp = _sym_path(prog, e.func, e.site.binds[0])
+        guards = _existence_guards(prog, e.func, e.site.node)
+        inst = '%s: %s of %s' % (e.func.qualname, e.stmt.text(), _show_path(sp))
+        if sp is not None and sp in guards:
+            chk.ok(E4, inst + ' behind an existence test of the same path', loc)
         else:
-            chk.violation(E4, '%s|attach unguarded' % e.func.qualname, loc,
-                          'ATTACH in %s is not preceded by an existence test that throws: loading '
-                          'would create the file' % e.func.qualname)
+            chk.violation(E4, '%s|attach %s' % (e.func.qualname.split('::')[-1], _show_path(sp)), loc,
+                          '%s: no preceding `if (!path_exists(P)) throw` tests this very path (tested: %s); '
+                          'attaching a file that does not exist creates it, so loading would modify the '
+                          'library directory' % (inst, [_show_path(g) for g in guards]))
+    all_reach = {}
+    for label, defs, kind in obs:
+        all_reach.update(cg.reachable(defs))
+    for f, n, arg in _open_sites(prog, cg, all_reach):
+        sp = _sym_path(prog, f, arg)
+        loc = locstr(n)
+        inst = '%s opens sqlite::database{%s}' % (f.qualname, _show_path(sp))
+        if sp == (':memory:',):
+            chk.ok(E4, inst + ' (in-memory)', loc)
+            continue
+        guards = _existence_guards(prog, f, n)
+        if sp is not None and sp in guards:
+            chk.ok(E4, inst + ' behind an existence test of the same path', loc)
+        else:
+            chk.violation(E4, '%s|open %s' % (f.qualname.split('::')[-1], _show_path(sp)), loc,
+                          '%s: no preceding `if (!path_exists(P)) throw` tests this very path (tested: %s); '
+                          'sqlite opens with READWRITE|CREATE, so loading would create the file' % (
+                              inst, [_show_path(g) for g in guards]))
 
     for label, defs, kind in mut:
         es, reach = eff.transitive(defs)
